@@ -169,7 +169,8 @@ let resp_s = function
       | 2 -> "RESP submit err exists " ^ sn arg
       | 3 -> "RESP submit err nonunique " ^ sn arg
       | 4 -> "RESP submit err invaliddep " ^ sn arg
-      | _ -> "RESP submit err undefrq " ^ sn arg)
+      | 5 -> "RESP submit err undefrq " ^ sn arg
+      | _ -> "RESP submit err idcount")
   | ROpen j -> "RESP open " ^ sn j
   | RClose c -> "RESP close " ^ (match int_of_n c with 0 -> "closed" | 1 -> "invalid" | _ -> "already")
   | RCancelOk (ids, already) -> Printf.sprintf "RESP cancel ok:%s:%s" (join "+" (List.map sn ids)) (sn already)
@@ -525,7 +526,6 @@ let process_trace header lines =
   let f12 = ref false in
   let stepno = ref 0 in
   let tainted = ref [] in
-  let excess = ref [] in
   let covtags = ref [] in
   let prev_core = ref None in
   let pending_resp : (int, string) Hashtbl.t = Hashtbl.create 4 and wait_job : (int, int) Hashtbl.t = Hashtbl.create 4 and completed_model = ref [] in
@@ -556,22 +556,9 @@ let process_trace header lines =
           List.iter (fun p -> add_mon (Printf.sprintf "M %s FAIL core-invariant-%s step=%d" p names.(which) !stepno)) props
         end;
         if not (hq_ok isys) then add_mon (Printf.sprintf "M C13 FAIL job-counters step=%d" !stepno);
-        (* finding F26: a submit whose explicit id list is longer than its entry list (no HQ client
-           sends one, the server accepts it) leaves the excess ids as tasks of the job that the
-           core never receives *)
-        (match !cur_op with
-        | Some (OpSubmit (_, ids, Some n, _, _, _, _, _)) when List.length ids > int_of_n n ->
-            List.iteri (fun i x -> if i >= int_of_n n && not (List.mem x !excess) then excess := x :: !excess) ids
-        | _ -> ());
-        if not (hq_core_bijection_ok isys) then begin
-          let core_ids = List.map (fun t -> t.t_id) c.c_tasks in
-          let hq_active = List.concat_map (fun j -> List.filter_map (fun (k, v) -> match v with JW | JR -> Some (j.j_id, k) | _ -> None) j.j_tasks) !ihq in
-          let phantoms = List.filter (fun t -> not (List.mem t core_ids)) hq_active in
-          let orphans = List.filter (fun t -> not (List.mem t hq_active)) core_ids in
-          if orphans = [] && phantoms <> [] && List.for_all (fun (_, k) -> List.mem k !excess) phantoms then
-            add_mon "M C02 KNOWN F26-ids-longer-than-entries a submit with more explicit ids than entries leaves the excess ids as tasks the scheduler never receives"
-          else add_mon (Printf.sprintf "M C02 FAIL hq-core-bijection step=%d" !stepno)
-        end;
+        (* job layer = core (finding F26, a submit with more explicit ids than entries, used to leave
+           phantom tasks here; it is refused since its repair) *)
+        if not (hq_core_bijection_ok isys) then add_mon (Printf.sprintf "M C02 FAIL hq-core-bijection step=%d" !stepno);
         if not (single_execution_ok isys) then add_mon (Printf.sprintf "M C06 FAIL two-executions step=%d" !stepno);
         (* C07 (theorem crash_counter_rule as a monitor on the implementation's snapshots): the crash
            counter of a surviving task changes only by +1, only when a worker is lost for a failure
@@ -796,22 +783,9 @@ let process_trace header lines =
   let tr = List.rev !items in
   if not (terminal_once [] tr) then add_mon "M C01 FAIL terminal-outcome-not-unique";
   if not (finish_after_start [] [] tr) then add_mon "M C01 FAIL finish-without-current-start-or-successful-run";
-  if not (deps_respected [] [] [] tr) then begin
-    (* finding F12: dependencies on tasks that were already failed / cancelled at submit time are dropped *)
-    let dead_at = ref [] in
-    let tr' =
-      List.map
-        (function
-          | IEv (EvFailed (t, _)) as i -> dead_at := t :: !dead_at; i
-          | IEv (EvCanceled ts) as i -> dead_at := ts @ !dead_at; i
-          | IEv (EvAborted ts) as i -> dead_at := ts @ !dead_at; i
-          | ISubmitted (j, tasks) -> ISubmitted (j, List.map (fun (id, deps) -> (id, List.filter (fun d -> not (List.mem (j, d) !dead_at)) deps)) tasks)
-          | i -> i)
-        tr
-    in
-    if deps_respected [] [] [] tr' then add_mon "M C03 KNOWN F12-dependency-on-dead-task a task submitted with a dependency on an already failed/cancelled task was started"
-    else add_mon "M C03 FAIL dependency-order-violated"
-  end;
+  (* (finding F12 - a dependency on an already failed / cancelled task was dropped and the task started -
+     used to be classified as known here; such a submit is refused since its repair) *)
+  if not (deps_respected [] [] [] tr) then add_mon "M C03 FAIL dependency-order-violated";
   if not (journal_dep_closed [] [] tr) then add_mon "M C03 FAIL journal-prefix-would-restart-dependent-of-dead-task";
   if not (instances_increase [] tr) then add_mon "M C06 FAIL instance-id-not-increasing";
   if not (no_start_after_giveup [] tr) then begin
